@@ -104,6 +104,7 @@ func init() {
 		Explain: "Decides the rejection clause and the wiring of coordinate addressing: (S1) every non-error iteration path of Ltoi's coordinate loop has established coord >= 0 and coord < size, and the scalar branch accepts only 0; (S2) in At/SetAt/MaskAt/SetMaskAt every path to Get/Set/mask[...] has passed the arity check and the error check of the offset computation and uses exactly that offset, at() is Ltoi over the tensor's own Shape() and Strides(), maskAt() is at(); (K3/K1arms) the typed Get/Set/Memset arms of array and storage.Header use only accessors and assertions of their own label type and agree with their sibling arms; (S8) stride-routine selection by data order. " +
 			"Not decided: that CalcStrides* compute the right products and that Ltoi's sum is the rank in data order (value arithmetic); behaviour of the column-major converting constructor. Round 7: (EP) every refusal a function constructs itself precedes any effect on the receiver/parameters, deferred closures included.",
 		Run: func(rc *rules.RC) {
+			rules.S22(rc)
 			rules.T13(rc)
 			rules.FL(rc, 2)
 			rules.O6(rc)
@@ -150,6 +151,7 @@ func init() {
 			"Not decided: that shape and strides address distinct in-bounds positions (a runtime invariant over values), that reshape preserves the flat sequence, repeat/concat calculators' arithmetic. Round 7: (DC) Repeat has no shortcut result beside its worker; (S21) the concat calculator's axis bounds are two-sided; (T14) composition order; (EP) refusals precede effects (Reshape, Transpose).",
 		Run: func(rc *rules.RC) {
 			rules.O11(rc, 1)
+			rules.S22(rc)
 			rules.DC(rc, "C13")
 			rules.T14(rc)
 			rules.T13(rc)
@@ -206,6 +208,7 @@ func init() {
 			"Not decided - and this is the core of the property: that the odometer yields offsets in row-major coordinate order, the skip counts, coordinate tracking values. Round 7: (I11) every loop over the multi-iterator's blocks that steps/rewinds them treats all blocks on every iteration; (L0) AP.IsVectorLike - which selects the unit-step fast path - is 'vector-like shape and all strides one'.",
 		Run: func(rc *rules.RC) {
 			rules.L0(rc, func(fn string) bool { return strings.HasSuffix(fn, ".IsVectorLike") }) // selects the iterator's unit-step fast path
+			rules.I13(rc)
 			rules.I11(rc)
 			rules.I10(rc)
 			rules.I9(rc)
